@@ -26,6 +26,10 @@ TU = "scriptplan/_cython/time_utils_cy.pyx"
 MP = "scriptplan/parser/macro_processor.py"
 
 MUTANTS = [
+    # ------------------------------------------------------------------ reverts of repaired defect F48 (C02)
+    ("c02_shift_leaves_not_consulted", "C02", [(RS, "            for leave in shift.get(\"leaves\", self.scenarioIdx) or []:\n                if hasattr(leave, \"interval\") and leave.interval and leave.interval.start <= date < leave.interval.end:\n                    return False\n\n", "")]),
+    # ------------------------------------------------------------------ revert of repaired defect F47 (C02)
+    ("c02_booking_weeks_as_hours", "C02", [(TP, "                            elif unit == \"w\":\n                                delta = timedelta(weeks=num)\n", "")]),
     # ------------------------------------------------------------------ reverts of repaired defect F45 (C02)
     ("c02_wrapping_shift_covers_own_morning", "C02", [(WH, "                if slot_minutes >= start_minutes:\n                    return True", "                if slot_minutes >= start_minutes or slot_minutes < end_minutes:\n                    return True")]),
     ("c02_no_hours_day_returns_early", "C02", [(WH, "        slot_minutes = dt.hour * 60 + dt.minute\n", "        if weekday not in self._hours or not self._hours[weekday]:\n            return False\n\n        slot_minutes = dt.hour * 60 + dt.minute\n")]),
